@@ -38,7 +38,15 @@ Build == /\ phase = "request"
          /\ phase' = "built"
          /\ UNCHANGED case
 
-Next == Build
+\* the same request issued again (model-checking runs only): a constructor is a function of its arguments, so building
+\* again - whatever the caller did with the earlier result - yields the same mask and leaves the earlier one alone
+Rebuild == /\ EmitMode = "none"
+           /\ phase = "built"
+           /\ out' = Result(case)
+           /\ phase' = "rebuilt"
+           /\ UNCHANGED case
+
+Next == Build \/ Rebuild
 Spec == Init /\ [][Next]_vars
 
 -----------------------------------------------------------------------------
@@ -134,7 +142,10 @@ C13_AlgebraLaws ==
             /\ out.diffdef => out.diff = out.union \ out.inter
             /\ Len(ms) = 1 => out.union = ms[1] /\ out.inter = ms[1] /\ out.sub = ms[1]
 
-TypeOK == phase \in {"request", "built"}
+TypeOK == phase \in {"request", "built", "rebuilt"}
+
+\* calls are independent: no state leaks from one call (or from the caller's use of a returned array) into the next
+C13_CallsAreIndependent == [][phase = "built" => out' = out]_vars
 
 -----------------------------------------------------------------------------
 \* emission: one JSON record per explored Build step (voxel sets as C-order linear indices)
